@@ -597,3 +597,4 @@ include!("c19_parts/gen.rs");
 include!("c19_parts/stress.rs");
 include!("c19_parts/table.rs");
 include!("c19_parts/run.rs");
+include!("c19_parts/reentrant.rs");
